@@ -17,7 +17,7 @@ func NewDbRes(a *App, env *Env) resource.Resource {
 	ctx := context.Background()
 	store := memdb.NewMemDb()
 	store.Connect(ctx, "")
-	for _, t := range []uint8{db.DATATYPE_BIN, db.DATATYPE_TEMPLATE, db.DATATYPE_MENU} {
+	for _, t := range []uint8{db.DATATYPE_BIN, db.DATATYPE_TEMPLATE, db.DATATYPE_MENU, db.DATATYPE_STATICLOAD} {
 		store.SetLock(t, false)
 	}
 	put := func(typ uint8, l string, key string, val []byte) {
@@ -51,9 +51,20 @@ func NewDbRes(a *App, env *Env) resource.Resource {
 			put(db.DATATYPE_MENU, l, sym+"_menu", []byte(t))
 		}
 	}
+	for sym, t := range a.Static {
+		put(db.DATATYPE_STATICLOAD, "", sym, []byte(t))
+	}
+	for l, m := range a.StaticLang {
+		for sym, t := range m {
+			put(db.DATATYPE_STATICLOAD, l, sym, []byte(t))
+		}
+	}
 	store.SetLanguage(nil)
 	store.SetLock(0, true)
 	rs := resource.NewDbResource(store)
+	if len(a.Static) > 0 {
+		rs = rs.With(db.DATATYPE_STATICLOAD)
+	}
 	for sym, f := range a.Funcs {
 		sym, f := sym, f
 		rs.AddLocalFunc(sym, func(ctx context.Context, nodeSym string, input []byte) (resource.Result, error) {
